@@ -1,7 +1,7 @@
 """Translator part: re-extract constants and tables from /repo's current sources
 into lean/NngModel/Generated/*.lean.  Fails loudly (ExtractError) when an anchor
 is missing: that is a broken correspondence, never a silent default."""
-import os, re, subprocess, json, hashlib
+import os, re, sys, subprocess, json, hashlib
 
 REPO = os.environ.get("VERIF_REPO", "/repo")
 HERE = os.path.dirname(os.path.dirname(os.path.abspath(__file__)))
@@ -100,7 +100,17 @@ def consts():
     return out
 
 
-EXTRA = []  # other modules append extraction hooks: fn(put)
+EXTRA = []  # extraction hooks fn(put), one per vlib/extract_*.py (loaded below)
+
+
+def _load_hooks():
+    import importlib, glob
+    here = os.path.dirname(os.path.abspath(__file__))
+    for f in sorted(glob.glob(os.path.join(here, "extract_*.py"))):
+        name = os.path.basename(f)[:-3]
+        mod = importlib.import_module(f"vlib.{name}" if __package__ else name)
+        if mod.hook not in EXTRA:
+            EXTRA.append(mod.hook)
 
 
 def lean_value(v):
@@ -144,6 +154,7 @@ def render(c):
 
 def generate():
     """Writes Generated/Consts.lean if changed; returns (consts, changed_names)."""
+    _load_hooks()
     c = consts()
     os.makedirs(GEN, exist_ok=True)
     path = os.path.join(GEN, "Consts.lean")
@@ -162,5 +173,6 @@ def generate():
 
 
 if __name__ == "__main__":
+    sys.path.insert(0, HERE)
     c, ch = generate()
     print(f"extracted {len(c)} constants/tables; changed: {ch}")
